@@ -1,12 +1,69 @@
-(* C22: buffered I/O preserves the byte stream and counts it exactly.  Property theorems only. *)
+(* C22: buffered I/O preserves the byte stream and counts it exactly.  Property theorems only.
+   Model: coq/model/Bufio.v (bfe_bufio/bufio.go after fix commit fa820bf). *)
 From Coq Require Import List ZArith Bool.
-From Bfe Require Import lib.Val lib.Bytes model.Bufio proofs.BufioProofs run.RunC22.
+From Bfe Require Import lib.Val lib.Bytes model.Bufio proofs.BufioProofs proofs.BufioStreamProofs run.RunC22.
 Import ListNotations.
 Open Scope Z_scope.
 
-(* The scripted source used by model and harness hands out its stream in order: what a source Read returns,
-   followed by what the rest of the script will return, is the stream. *)
+(* Counter exactness of the Reader.  For every buffer size, every scripted source (any chunking, errors anywhere)
+   and every history of Read / ReadByte / UnreadByte / ReadSlice / ReadLine / Peek / ReadBytes / WriteTo operations,
+   after EVERY operation TotalRead equals the number of bytes obtained from the underlying reader minus the bytes
+   still buffered, i.e. exactly the number of bytes consumed so far.  (Each observation is
+   [[results] TotalRead pulled Buffered].) *)
+Theorem C22_totalread_exact : forall size src ops obs,
+  reader_run ops (new_reader size src) = Some obs ->
+  Forall (fun o => exists ret t p b, o = VL [VL ret; VZ t; VZ p; VZ b] /\ t = p - b /\ 0 <= b) obs.
+Proof. exact totalread_exact. Qed.
+Print Assumptions C22_totalread_exact.
+
+(* Counter exactness of the Writer.  For every buffer size, every scripted sink (short writes, errors) and every
+   history of Write / WriteByte / WriteString / Flush / ReadFrom operations, after EVERY operation TotalWrite equals
+   the bytes handed to the underlying writer plus the bytes still buffered, i.e. exactly the bytes accepted so far. *)
+Theorem C22_totalwrite_exact : forall size sink ops obs,
+  writer_run ops (new_writer size sink) = Some obs ->
+  Forall (fun o => (exists ret t k b, o = VL [VL ret; VZ t; VZ k; VZ b] /\ t = k + b) \/ exists out, o = VB out) obs.
+Proof. exact totalwrite_exact. Qed.
+Print Assumptions C22_totalwrite_exact.
+
+(* Stream preservation of the Reader.  Let S be the byte stream of the scripted source (bytes >= 0).  For every
+   buffer size, every chunking/error script and every history of the core operations Read (1), ReadByte (2),
+   UnreadByte (3), ReadSlice (4), ReadLine (5), Peek (6), the observations satisfy trace_ok S 0, i.e. with pos the
+   value of TotalRead before an operation and t after it (obs_law):
+     Read / ReadSlice : the returned bytes are exactly S[pos, pos+len) and t = pos + len
+     ReadByte         : on success the byte is S[pos] and t = pos + 1, otherwise t = pos
+     Peek             : the returned bytes are exactly S[pos, pos+len) and t = pos
+     ReadLine         : S[pos, t) is the returned line followed by nothing, LF or CR LF
+     UnreadByte       : on success t = pos - 1 (and because every later operation reads S from t, the byte that is
+                        re-exposed is S[pos-1], the byte consumed last), otherwise t = pos.
+   So nothing of the stream is lost, duplicated or reordered.  The proof maintains the invariant InvS: the remainder
+   of S from TotalRead is the buffered window followed by what the source still delivers, and the bytes in front of
+   the read index are the bytes consumed last. *)
+Theorem C22_reader_stream : forall size src ops obs,
+  Forall (fun b => 0 <= b) (script_stream src) ->
+  forallb core_op ops = true ->
+  reader_run ops (new_reader size src) = Some obs ->
+  trace_ok (script_stream src) 0 ops obs.
+Proof. exact reader_stream. Qed.
+Print Assumptions C22_reader_stream.
+
+(* Non-vacuity: a history with UnreadByte after ReadSlice and after Read, Peek and ReadLine over CR LF split across
+   source chunks meets the hypotheses. *)
+Example C22_reader_stream_example :
+  let src := [([97;98;99;10], 0); ([100;13], 0); ([10;101], 1)] in
+  let ops := [VL [VZ 2]; VL [VZ 4; VZ 10]; VL [VZ 3]; VL [VZ 2]; VL [VZ 6; VZ 3]; VL [VZ 5]; VL [VZ 1; VZ 40]; VL [VZ 3]; VL [VZ 5]] in
+  Forall (fun b => 0 <= b) (script_stream src) /\ forallb core_op ops = true /\
+  exists obs, reader_run ops (new_reader 16 src) = Some obs.
+Proof. exact reader_stream_example. Qed.
+
+(* The scripted source hands out its stream in order: what one source Read returns, followed by what the rest of
+   the script will return, is the stream. *)
 Theorem C22_source_in_order : forall room s d e s', 0 <= room ->
   src_read room s = (d, e, s') -> script_stream s = d ++ script_stream s' /\ blen d <= Z.max room 0.
 Proof. exact src_read_stream. Qed.
 Print Assumptions C22_source_in_order.
+
+(* Non-vacuity: the pre-fix witness (ReadByte, then a ReadSlice that needs a refill): the counter is 6, not 5. *)
+Example C22_totalread_example :
+  run_C22 (VL [VZ 1; VZ 16; VL [VL [VB [97;98]; VZ 0]; VL [VB [99;100;101;10]; VZ 0]]; VL [VL [VZ 2]; VL [VZ 4; VZ 10]]])
+  = VL [VL [VL [VZ 97; VZ 0]; VZ 1; VZ 2; VZ 1]; VL [VL [VB [98;99;100;101;10]; VZ 0]; VZ 6; VZ 6; VZ 0]].
+Proof. exact totalread_example. Qed.
